@@ -1,9 +1,11 @@
 //! C02 driver: export fidelity. Concretises abstract message records (from TLC or the seeded random generator) into
 //! real DLT bytes, runs parse_dlt_with_storage_header -> DltMessage::to_write -> parse -> to_write on the real code and
 //! records what it saw (`rt` events). Whole files go through the real `adlt convert -o` binary (`fmsg` / `fend`).
+//! The parsed message is also written through the public DltStandardHeader::to_write directly WITH its ECU id and / or a session
+//! id in the standard header (DltMessage::to_write never asks for them), re-read and exported again (`wx` entries).
 //! No expectation is computed here: the contract (spec/LayoutTrace.tla) recomputes everything from the logged
 //! ORIGINAL fields. The only comparison done here is byte equality (second write == first write, files identical).
-use adlt::dlt::{parse_dlt_with_storage_header, DltMessage};
+use adlt::dlt::{parse_dlt_with_storage_header, DltMessage, DltStandardHeader};
 use vh::*;
 
 /// the fields of one stored message as generated (the truth)
@@ -195,6 +197,28 @@ fn write_ev(m: &DltMessage) -> Result<(bool, Vec<u8>), String> {
     }))
 }
 
+/// the parsed message behind the storage header of `w1`, written by DltStandardHeader::to_write with the ECU id (we) and / or a
+/// session id (ws) in the standard header; then parsed and exported again. Only called when the longer header fits the len field.
+fn write_x(m1: &DltMessage, w1: &[u8], we: bool, ws: bool, sid: u32) -> Result<Value, String> {
+    let (ok, w) = catch(std::panic::AssertUnwindSafe(|| {
+        let mut w = w1[..16.min(w1.len())].to_vec();
+        let ts = if m1.standard_header.has_timestamp() { Some(m1.timestamp_dms) } else { None };
+        let ok = DltStandardHeader::to_write(&mut w, &m1.standard_header, &m1.extended_header, if we { Some(m1.ecu) } else { None },
+                                             if ws { Some(sid) } else { None }, ts, &m1.payload).is_ok();
+        (ok, w)
+    }))?;
+    let (p, mx) = parse_ev(&w)?;
+    let wj = match mx {
+        Some(mx) => {
+            let (ok2, w2) = write_ev(&mx)?;
+            json!({"ok":ok2,"equal":w2 == w1})
+        }
+        None => json!({"ok":false,"equal":false}),
+    };
+    Ok(json!({"weid":we,"wsid":ws,"ok":ok,"bytes":w.len(),"htyp": w.get(16).copied().unwrap_or(0),
+              "len": if w.len() >= 20 { u16::from_be_bytes([w[18], w[19]]) as u32 } else { 0 },"p":p,"w":wj}))
+}
+
 fn run_rt(t: &mut Trace, case: u64, o: &Orig, src: &str) {
     t.ev(json!({"ev":"reset","case":case,"hdr":{"kind":"rt","src":src}}));
     let bytes = o.bytes();
@@ -204,7 +228,7 @@ fn run_rt(t: &mut Trace, case: u64, o: &Orig, src: &str) {
         let (p1, m1) = parse_ev(&bytes)?;
         let m1 = match m1 {
             Some(m) => m,
-            None => return Ok(json!({"ev":"rt","m":o.json(),"p1":p1,"w1":not_w,"p2":not_p,"w2":{"ok":false,"equal":false}})),
+            None => return Ok(json!({"ev":"rt","m":o.json(),"p1":p1,"w1":not_w,"p2":not_p,"w2":{"ok":false,"equal":false},"wx":Vec::<Value>::new()})),
         };
         let (ok1, w1) = write_ev(&m1)?;
         let w1j = json!({"ok":ok1,"bytes":w1.len(),"htyp": w1.get(16).copied().unwrap_or(0),
@@ -217,7 +241,15 @@ fn run_rt(t: &mut Trace, case: u64, o: &Orig, src: &str) {
             }
             None => json!({"ok":false,"equal":false}),
         };
-        Ok(json!({"ev":"rt","m":o.json(),"p1":p1,"w1":w1j,"p2":p2,"w2":w2j}))
+        // ECU id / session id in the standard header (only while the longer header fits the 16 bit len field)
+        let mut wx = Vec::new();
+        for (we, ws) in [(true, false), (false, true), (true, true)] {
+            let len_x = 4 + 4 * we as usize + 4 * ws as usize + 4 * o.wtms as usize + 10 * o.ueh as usize + o.payload.len();
+            if ok1 && len_x <= 65535 {
+                wx.push(write_x(&m1, &w1, we, ws, o.sid)?);
+            }
+        }
+        Ok(json!({"ev":"rt","m":o.json(),"p1":p1,"w1":w1j,"p2":p2,"w2":w2j,"wx":wx}))
     })();
     match r {
         Ok(e) => t.ev(e),
